@@ -17,6 +17,7 @@ mod c14;
 mod c20;
 mod c12;
 mod c10;
+mod c04;
 mod c17;
 mod c05;
 mod c18;
@@ -50,6 +51,7 @@ fn main() {
         "C01" => c01::cases(&mut rng, count, tier),
         "C02" | "C03" | "C19" => cworld::cases_simple(&mut rng, count, tier, prop),
         "C15" => cworld::cases_c15(&mut rng, count, tier),
+        "C04" => c04::cases(&mut rng, count, tier),
         "C05" => c05::cases(&mut rng, count, tier),
         "C07" => cbin::cases_c07(&mut rng, count, tier),
         "C08" => cbin::cases_c08(&mut rng, count, tier),
